@@ -228,11 +228,23 @@ def run_case(case):
         # truncation of the chain MPS: errors accumulate over bonds and steps
         phys.c = 100.0 * n * max(scales) * lib.pt_growth(nsteps)
         record = list(range(n)) + [(0, 1), (0, n - 1)]
+        # physical control operations (CPTP maps: resets, damping, unitary
+        # kicks) at some sites and steps keep every state physical
+        cc = None
+        if i % 2 == 0:
+            cc = oqupy.ChainControl(dims)
+            for _ in range(int(rng.integers(1, 4))):
+                site = int(rng.integers(0, n))
+                step = int(rng.integers(0, nsteps + 1))
+                kind = ["channel", "unitary", "channel"][int(rng.integers(0, 3))]
+                cc.add_single_site_control(
+                    scen.random_superop(rng, dims[site], kind), site, step,
+                    post=bool(rng.random() < 0.5) and step < nsteps)
         oqupy.PtTebd(oqupy.AugmentedMPS(rhos), chain, pts,
                      oqupy.PtTebdParameters(dt=dt, epsrel=teps,
                                             order=1 + i % 2),
-                     dynamics_sites=record).compute(nsteps,
-                                                    progress_type="silent")
+                     dynamics_sites=record, chain_control=cc).compute(
+                         nsteps, progress_type="silent")
     else:   # gibbs
         dd = int(rng.choice([2, 3]))
         dims_sig = dd
